@@ -25,6 +25,17 @@ package compactindex36
 //      collisions inside an attempt are the rule) sealing at the same time in one process must each give the file the same
 //      build gives when it runs alone. Signature: concurrent-builders-interfere.
 //
+//  (d) vc04rBigSpill: "for any set of distinct keys (each at most 65 535 bytes) ... independently of insertion order, of the
+//      declared item count": key sets whose keys all land in ONE bucket (declared count <= the per-bucket target) and whose
+//      per-bucket temporary key/value stream is several MiB - a few thousand keys of one fixed length (1000 bytes), of mixed
+//      lengths 500..4000, a hundred keys of 30 000..65 535 bytes, 12 000 keys of 150..260 bytes with a declared count of 1
+//      (an over-full bucket that can still be mined) and 100 000 short keys with a declared count of 1 (an over-full bucket
+//      that cannot; quick tier: in two orders, and only where the caller asks for it). Each set is built in three insertion
+//      orders (as drawn, reversed, shuffled): either every build fails
+//      with an error, or every build gives the same bytes and every key is found with its value in each of them.
+//      Signatures: wrong-value, lost-entry, lookup-error, reader-panic, header-mismatch, order-dependent,
+//      unexpected-build-error, builder-panic.
+//
 // Nothing here depends on timing: on an implementation that has the property every schedule gives the same bytes.
 
 import (
@@ -37,6 +48,7 @@ import (
 	"os"
 	"runtime"
 	"sync"
+	"time"
 
 	"github.com/rpcpool/yellowstone-faithful/zzverif/vh"
 )
@@ -547,5 +559,148 @@ func vc04rConcurrentBuilders(rep *vh.Report, seed uint64, ads []vc04rAdapter, si
 				}
 			}
 		}
+	}
+}
+
+// ---------------------------------------------------------------- (d) buckets whose temporary key/value stream is several MiB
+
+type vc04rSpillShape struct {
+	Name     string
+	N        int
+	Lo, Hi   int  // key lengths Lo..Hi
+	Declared uint // declared item count (<= Target: one bucket)
+	MayFail  bool // an over-full bucket: an error from the builder is an acceptable outcome
+}
+
+// vc04rSpillKeys: n distinct keys with lengths lo..hi; a counter in the first bytes keeps them distinct, the rest is
+// drawn from the seed in one slab (cheap for long keys).
+func vc04rSpillKeys(rng *vh.Rng, ad vc04rAdapter, n, lo, hi int) []vc04rKV {
+	out := make([]vc04rKV, n)
+	for i := range out {
+		l := lo
+		if hi > lo {
+			l = rng.Range(lo, hi)
+		}
+		k := rng.Bytes(l)
+		for j := 0; j < 4 && j < l; j++ { // lengths >= 4 here: 2^32 distinct prefixes
+			k[j] = byte(i >> (8 * uint(j)))
+		}
+		out[i] = vc04rKV{k, ad.GenValue(rng)}
+	}
+	return out
+}
+
+// overfull: also the shape that cannot be mined (1000 attempts: ~1.4 s per build); it is built in two orders only.
+func vc04rBigSpill(rep *vh.Report, seed uint64, ad vc04rAdapter, thorough bool, overfull bool) {
+	rng := vh.NewRng(seed + 0xd1d)
+	t0 := time.Now()
+	defer func() { rep.Flag("big_spill_seconds["+ad.Name+"]", int(time.Since(t0).Seconds()+0.5)) }() // information only
+	shapes := []vc04rSpillShape{
+		{"3000..3400 keys of 1000 bytes", rng.Range(3000, 3400), 1000, 1000, 0, false},
+		{"2200..2600 keys of 500..4000 bytes", rng.Range(2200, 2600), 500, 4000, 0, false},
+		{"100..130 keys of 30000..65535 bytes", rng.Range(100, 130), 30000, 65535, 0, false},
+		{"12000 keys of 150..260 bytes, declared count 1", 12000, 150, 260, 1, true},
+	}
+	if overfull || thorough {
+		shapes = append(shapes, vc04rSpillShape{"100000 keys of 8..40 bytes, declared count 1", 100000, 8, 40, 1, true})
+	}
+	if thorough {
+		shapes = append(shapes,
+			vc04rSpillShape{"9000..10000 keys of 2000..2100 bytes", rng.Range(9000, 10000), 2000, 2100, 0, false},
+			vc04rSpillShape{"1000 keys of 60000..65535 bytes", 1000, 60000, 65535, 0, false},
+			vc04rSpillShape{"5000 keys of 999..1001 bytes, declared count 1", 5000, 999, 1001, 1, false},
+			vc04rSpillShape{"250000 keys of 4..24 bytes, declared count 1", 250000, 4, 24, 1, true})
+	}
+	for _, sh := range shapes {
+		t1 := time.Now()
+		items := sh.Declared
+		if items == 0 {
+			items = uint(sh.N)
+			if rng.Bool() {
+				items = uint(rng.Range(sh.N, int(ad.Target))) // still one bucket
+			}
+		}
+		if items > ad.Target {
+			panic("VERIF-HARNESS-BUG: big-spill shape with more than one bucket")
+		}
+		kvs := vc04rSpillKeys(rng, ad, sh.N, sh.Lo, sh.Hi)
+		spill := 0
+		for _, x := range kvs {
+			spill += 2 + len(x.V) + len(x.K)
+		}
+		input := map[string]interface{}{"format": ad.Name, "declared_items": items, "buckets": 1, "keys": len(kvs), "key_lengths": []int{sh.Lo, sh.Hi},
+			"spill_bytes_about": spill, "shape": sh.Name, "note": "one bucket with a multi-MiB temporary key/value stream; keys are drawn from the seed (vc04rSpillKeys, rng seed+0xd1d)"}
+		rep.Case(fmt.Sprintf("big-spill/%s/%s/%d/%d", ad.Name, sh.Name, items, len(kvs)), true)
+		rep.Count(fmt.Sprintf("big-spill: sets with a spill stream of %d MiB", spill>>20))
+		rev := make([]int, len(kvs))
+		for i := range rev {
+			rev[i] = len(kvs) - 1 - i
+		}
+		orders := []struct {
+			name string
+			kvs  []vc04rKV
+		}{{"as drawn", kvs}, {"reversed", vc04rPermute(kvs, rev)}, {"shuffled", vc04rPermute(kvs, rng.Perm(len(kvs)))}}
+		if sh.N >= 100000 && !thorough {
+			orders = orders[1:] // reversed and shuffled
+		}
+		var ref []byte
+		refFailed := false
+		for oi, o := range orders {
+			rp := map[string]interface{}{"insertion_order": o.name, "input": input}
+			f, msg := ad.Build(items, o.kvs, nil)
+			rep.Count("big-spill: builds")
+			if len(msg) >= 6 && msg[:6] == "panic:" {
+				rep.Fail("builder-panic", fmt.Sprintf("%s, insertion order %s: %s", sh.Name, o.name, msg), rp)
+				continue
+			}
+			if msg != "" {
+				rep.Count("big-spill: builds that fail with an error")
+				if !sh.MayFail {
+					rep.Fail("unexpected-build-error", fmt.Sprintf("supported distinct key set in one bucket (%s, insertion order %s): %s", sh.Name, o.name, msg), rp)
+				} else if oi > 0 && ref != nil {
+					rep.Fail("order-dependent", fmt.Sprintf("%s: the build succeeds in the order %s and fails in the order %s: %s", sh.Name, orders[0].name, o.name, msg), rp)
+				}
+				if oi == 0 {
+					refFailed = true
+				}
+				continue
+			}
+			// a file without an error must honour every insert, whatever the order and the declared count
+			if oi == 0 {
+				vc04rVerifyAll(rep, seed, f, kvs, ad.Open, rp)
+				ref = f
+				continue
+			}
+			if look, m := ad.Open(bytes.NewReader(f), false); look == nil {
+				rep.Fail("header-mismatch", "Open of a freshly sealed index failed: "+m, rp)
+			} else {
+				bad := 0
+				for _, x := range kvs {
+					v, st, m := look(x.K)
+					if st == 0 && bytes.Equal(v, x.V) {
+						continue
+					}
+					if bad++; bad > 3 {
+						continue
+					}
+					what := vc04rStatus[st] + " " + m
+					if st == 0 {
+						what = "another value: " + vc04rShort(v)
+					}
+					rep.Fail([]string{"wrong-value", "lost-entry", "lookup-error", "reader-panic"}[st],
+						fmt.Sprintf("%s, insertion order %s: inserted key %s (len %d, value %s) -> %s", sh.Name, o.name, vc04rShort(x.K), len(x.K), vc04rShort(x.V), what), rp)
+				}
+				rep.CountN("big-spill: lookups", len(kvs))
+			}
+			switch {
+			case refFailed:
+				rep.Fail("order-dependent", fmt.Sprintf("%s: the build fails in the order %s and succeeds in the order %s", sh.Name, orders[0].name, o.name), rp)
+			case ref != nil && !bytes.Equal(ref, f):
+				rep.Fail("order-dependent", fmt.Sprintf("%s: insertion order %s gave different bytes (first difference at offset %d of %d)", sh.Name, o.name, vc04rFirstDiff(f, ref), len(ref)), rp)
+			case ref != nil:
+				rep.Count("big-spill: another insertion order byte-identical")
+			}
+		}
+		rep.Flag("big_spill_ms["+ad.Name+"]["+sh.Name+"]", time.Since(t1).Milliseconds()) // information only
 	}
 }
